@@ -36,6 +36,8 @@ Index g_q;                /* Skolem position */
     (((B)->m_perm[e] >= 0) ? ((B)->m_perm[e] < (B)->m_n) : ((B)->m_perm[e] >= -(B)->m_n)) ) )
 /* forall-elimination of the proved well-formedness postcondition of compute() at a use-site index */
 #define INSTANTIATE_WF(B, e) __CPROVER_assume(WF_AT(B, e))
+/* forall-elimination of the loop invariant "positions lo..n-1 still hold the identity record" (proved for the Skolem position g_q) at index e */
+#define INSTANTIATE_IDENT(B, lo, e) __CPROVER_assume(!((lo) <= (e) && (e) < (B)->m_n) || (B)->m_perm[e] == (e))
 '''
 
 CALLEES = r'''
@@ -43,6 +45,7 @@ CALLEES = r'''
 static _Bool permutate_mat(BK *B, Index k, Scalar alpha)
 {
   __CPROVER_assert(0 <= k && k < B->m_n - 1, "permutate_mat precondition: k < n - 1 (a sub-column exists)");
+  __CPROVER_assert(B->m_perm[k] == k, "permutate_mat precondition: position k still holds the identity record (permutate_mat does not write it when no interchange is needed)");
   if (nondet_bool()) { Index r = nondet_Index(); __CPROVER_assume(k <= r && r < B->m_n); B->m_perm[k] = r; return 1; }
   { Index r = nondet_Index(), p = nondet_Index(); __CPROVER_assume(k + 1 <= r && r < B->m_n && k <= p && p < B->m_n);
     B->m_perm[k] = -p - 1; B->m_perm[k + 1] = -r - 1; return 0; }
@@ -88,7 +91,7 @@ def f_compute(report):
            ("alpha", r"const RealScalar alpha = \(1\.0 \+ std::sqrt\(17\.0\)\) / 8\.0;", "const Scalar alpha = (Scalar)0.6403882032022076;", {"max": 1}),
            ("copy_data", r"copy_data\(mat, uplo, shift\);", "copy_data(B, uplo, shift);", {"max": 1}),
            ("compute_pointer", r"(?<![\w>])compute_pointer\(\);", "compute_pointer(B);", {"max": 1}),
-           ("permutate", r"permutate_mat\(k, alpha\)", "permutate_mat(B, k, alpha)", {"max": 1}),
+           ("permutate", r"permutate_mat\(k, alpha\)", "(INSTANTIATE_IDENT(B, k, k), permutate_mat(B, k, alpha))", {"max": 1}),
            ("ge1", r"m_info = gaussian_elimination_1x1\(k\);", "m_info = gaussian_elimination_1x1(B, k); B->kind[k] = 0;", {"max": 1}),
            ("ge2", r"m_info = gaussian_elimination_2x2\(k\);", "m_info = gaussian_elimination_2x2(B, k); B->kind[k] = 1; B->kind[k + 1] = 2;", {"max": 1}),
            ("last-akk", r"const Scalar akk = ScalarOp<Scalar>::real\(diag_coeff\(k\)\);\s*diag_coeff\(k\) = akk;", "const Scalar akk = DIAG_REAL(B, k); if (B->m_perm[k] >= 0) B->kind[k] = 0;", {"max": 1}),
@@ -221,8 +224,9 @@ def build(tier):
     from props import kernels
     groups += kernels.bkldlt_groups(tier, report)
     meta = {"level": "proof", "trusted_base": ["cbmc 6.11.0 dfcc", "cadical", "extractor"],
-            "assumptions": ["permutate_mat / gaussian_elimination_1x1 / _2x2 / copy_data satisfy the contracts stubbed in bk.compute; each of those contracts is checked on the real body only as a BOUNDED stand-in "
-                            "(bkldlt.kernels.*, bkldlt.ge*, bkldlt.copy_data.* at concrete n, listed separately and never counted as proved)",
+            "assumptions": ["permutate_mat's contract stubbed in bk.compute (incl. its precondition: position k still holds the identity record) is PROVED for every n on the packed-cursor model "
+                            "(bkldlt.pivoting.unbounded: pointers into the packed storage are (column, offset) pairs, values not modelled) and re-checked with real pointer arithmetic at concrete n (bkldlt.kernels.*, BOUNDED); "
+                            "gaussian_elimination_1x1 / _2x2 / copy_data: contracts checked on the real bodies only as BOUNDED stand-ins (bkldlt.ge*, bkldlt.copy_data.* at concrete n, listed separately and never counted as proved)",
                             "in the bounded elimination kernels mapped-vector updates lose their values (extent checked against the addressed column) and solve_left_2x2 is not under contract; "
                             "the two products of the 2x2 determinant test are an uninterpreted function on both sides; conj() in copy_data is an uninterpreted function (generic scalar), real()/conj() are the identity in the other kernels (real instantiation)",
                             "packed storage is seen through m_colptr[j] as column segments of length n - j (layout by compute_pointer is a bounded check)",
